@@ -53,8 +53,13 @@ TRank ==
     /\ UNCHANGED <<n, allequal, summary>>
 
 \* the hdrplot value column never decreases as the percentile grows
+\* ... and its rows are percentiles of this set: within the observed range, and all equal to the value when all latencies are
 THdr == /\ IsEv(l, "Hdr")
         /\ Chain(Ev(l).values)
+        /\ summary.set
+        /\ \A i \in 1..Len(Ev(l).values) :
+              /\ B!Le(summary.min, Ev(l).values[i]) /\ B!Le(Ev(l).values[i], summary.max)
+              /\ (allequal => Ev(l).values[i] = summary.min)
         /\ l' = l + 1
         /\ UNCHANGED <<n, allequal, summary>>
 
